@@ -11,7 +11,7 @@ EXTENDS Naturals, FiniteSets, Sequences, TLC, Json, IOUtils
 
 Recs == ndJsonDeserialize(IOEnv.TRACE)
 N == Len(Recs)
-Fields == {"A", "B", "C", "D", "E"}
+Fields == {"A", "B", "C", "D", "E", "G"}
 
 VARIABLE i
 R == Recs[i]
